@@ -727,6 +727,19 @@ func judgeC10(c *Ctx, sc *Scenario) *Violation {
 		c.Stats.FaultsFired["invalid-input:"+p.Invalid]++
 		return judgeOutcome(res, nil, true, "invalid input ("+p.Invalid+") args="+fmt.Sprintf("%q", sc.Inv.Args), false)
 	case "shallow", "absent":
+		if p.Mode == "absent" && os.Getenv("VERIF_GITSIZER_BIN") != "" && fnv64(sc.Hash())%2 == 0 {
+			// no usable git at all: the real binary with an empty PATH
+			b := *sc
+			b.Plan = Plan{}
+			b.Inv.Cwd = "top"
+			b.Inv.Env = map[string]string{"PATH": filepath.Join(site.Root, "no-such-dir")}
+			rb := RunB(&b, site, BOpts{NoShim: true})
+			c.Stats.CLIRuns++
+			c.Stats.FaultsFired["engineB-git-not-on-PATH"]++
+			if v := judgeOutcome(rb, nil, true, "git is not on PATH (engine B)", true); v != nil {
+				return v
+			}
+		}
 		res := RunA(c.T, c.H, sc, site)
 		c.Stats.AddResult(res)
 		c.Stats.Evaluations++
